@@ -159,7 +159,7 @@ static void mt_case(Out& out, Rng& rng, uint64_t nn, int nthreads, int iters, in
       break;
     }
   }
-  fprintf(out.ops, "ca nop");
+  fprintf(out.ops, "ca nop mt_module nn=%lu threads=%d iters=%d simple_api=%d mask=%d", (unsigned long)nn, nthreads, iters, simple, mask);
   fprintf(out.real, "nop");
   out.endcase(verdict);
   out.count("threads", nthreads);
